@@ -12,13 +12,18 @@ trap cleanup EXIT
 mkdir -p "$WT/demo"
 cp "$SEED"/demo.c "$SEED"/build.sh "$WT/demo/"
 [ -f "$SEED/extra_files.txt" ] && (cd "$SEED" && cat extra_files.txt | xargs -I{} cp {} "$WT/demo/")
-( cd "$WT" && make >/dev/null 2>&1 ) || { echo "CONFIRM $SEED: baseline build failed"; exit 2; }
+# optional: extra CFLAGS for the library when building it FOR THE DEMO (e.g. -DSKINNY_C_VERIF to pin a back end);
+# the repository's tests are always run on the normal build
+LIBF=""; [ -f "$SEED/libcflags" ] && LIBF="$(cat "$SEED/libcflags")"
+bld() { ( cd "$WT" && make clean >/dev/null 2>&1; CFLAGS="$1" make >/dev/null 2>/tmp/cs_make.$$ ); }
+bld "$LIBF" || { echo "CONFIRM $SEED: baseline build failed"; exit 2; }
 sh "$WT/demo/build.sh" >/dev/null 2>&1 || { echo "CONFIRM $SEED: demo build failed"; exit 2; }
 "$WT/demo/demo" >/tmp/cs_out.$$ 2>&1; base=$?
 git -C "$WT" apply "$SEED/patch.diff" || { echo "CONFIRM $SEED: patch does not apply"; exit 2; }
-( cd "$WT" && make >/tmp/cs_make.$$ 2>&1 ) || { echo "CONFIRM $SEED: patched build failed"; exit 2; }
+bld "" || { echo "CONFIRM $SEED: patched build failed"; exit 2; }
 warn=$(grep -c "warning:" /tmp/cs_make.$$)
 oks=$( cd "$WT" && make check 2>&1 | grep -c ": ok" )
+[ -n "$LIBF" ] && bld "$LIBF"
 sh "$WT/demo/build.sh" >/dev/null 2>&1
 "$WT/demo/demo" >/tmp/cs_out2.$$ 2>&1; mut=$?
 echo "CONFIRM $(basename "$SEED"): demo_on_original_exit=$base demo_on_patched_exit=$mut tests_ok_with_patch=$oks warnings=$warn"
